@@ -44,3 +44,5 @@ CLAIM = dict(
     technique=('Lean 4 proof over a parametric state machine (inversion of successful runs, induction over histories) + '
                'differential oracle incremental / batched / replayed / cloned on the real Context'),
 )
+
+CLAIM["text"] += ' Sessions contain lines entered twice in a row, and a further run interleaves the inspection commands `info <name>` / `list` (through the real command runner) with the inputs: commands are not saved and must leave results, prints and state unchanged.'
